@@ -33,6 +33,9 @@ def generate(tier, seed):
                       "seed": "%d:b:%d" % (seed, k), "cost": 16})
     for k in range(40 if tier == "quick" else 2500):
         cases.append({"kind": "two-files", "mode": "two-files", "seed": "%d:tf:%d" % (seed, k), "cost": 30})
+    # more cases in which one member of a hydrogen-bonded pair is listed and the other is not
+    for k in range(150 if tier == "quick" else 3000):
+        cases.append({"kind": "built", "mode": "pair", "seed": "%d:pair:%d" % (seed, k), "cost": 16})
     return cases
 
 
@@ -226,7 +229,8 @@ def run_case(case, tier):
                     if q is not None and q["charge"] == h["charge"] and q["model_pka"] != h["model_pka"]:
                         r1, r2 = (h["aid"][1], h["aid"][2], h["aid"][3]), (q["aid"][1], q["aid"][2], q["aid"][3])
                         if r1 != r2 and r1 in res and r2 in res:
-                            cands.append((r1, r2))
+                            # (pairs that are not iterated - the model values decide the direction - are rarer: weighted)
+                            cands += [(r1, r2)] * (4 if _interaction_type(h["type"], q["type"]) == "N" else 1)
                     elif q is not None and q["charge"] * h["charge"] < 0 and _interaction_type(h["type"], q["type"]) == "I":
                         # a hydrogen-bonded acid-base pair that the iteration settles (ASP-HIS, TYR-LYS ...)
                         r1, r2 = (h["aid"][1], h["aid"][2], h["aid"][3]), (q["aid"][1], q["aid"][2], q["aid"][3])
